@@ -150,16 +150,29 @@ def run_once(sc, close_step=None):
         active = rec["unaware_active"] = set()
         orig_unaware = client._send_broker_unaware_request
 
+        unaware = rec["unaware"] = []  # one record per broker-agnostic request: brokers known at its start, tried
+
         def unaware_spy(requestId, request):
+            ur = dict(rid=requestId, n_known=len(client._brokers), tried=set(), done=False)
+            unaware.append(ur)
             d = orig_unaware(requestId, request)
             active.add(d)
 
             def done(r):
                 active.discard(d)
+                ur["done"] = True
                 return r
             d.addBoth(done)
             return d
         client._send_broker_unaware_request = unaware_spy
+        orig_mrtb = client._make_request_to_broker
+
+        def mrtb_spy(broker, requestId, request, **kw):
+            for ur in unaware:
+                if ur["rid"] == requestId and not ur["done"]:
+                    ur["tried"].add(getattr(broker, "node_id", id(broker)))
+            return orig_mrtb(broker, requestId, request, **kw)
+        client._make_request_to_broker = mrtb_spy
         merging = rec["merging"] = [0]
         orig_merge = client._merge_topic_metadata
 
@@ -202,6 +215,9 @@ def run_once(sc, close_step=None):
                                     nested=client.close_dlist is not None,
                                     boot_in_progress=any(is_boot_attempt(a) for a in w.net.pending_attempts) or
                                     any(is_boot_conn(cn) for cn in w.net.open_conns))
+            # broker-agnostic requests that still have known brokers they have not tried
+            c["untried"] = [ur for ur in rec["unaware"] if not ur["done"] and ur["n_known"] > len(ur["tried"]) > 0]
+            c["untried_not_failed"] = []
             try:
                 d = client.close()
             except Exception as e:
@@ -213,6 +229,8 @@ def run_once(sc, close_step=None):
 
             def at_quiesce():
                 c["returned_pending"] = [o for o in c["pending_ops"] if not o["fires"]]
+                c["untried_not_failed"] = [(ur["rid"], ur["n_known"], len(ur["tried"])) for ur in c["untried"]
+                                           if not ur["done"]]
                 w.clock.hooks.remove(at_quiesce)
             w.clock.hooks.append(at_quiesce)
 
@@ -431,6 +449,16 @@ def check(res, rec):
                             "an operation pending at close() completed successfully after close()", kind=o["kind"],
                             fire=o["fires"][0])
         res.ob("pending_failed_at_once")
+    if c.get("untried"):
+        res.hit("unaware_requests_with_untried_brokers_at_close", len(c["untried"]))
+        for (rid, n_known, n_tried) in c.get("untried_not_failed", ()):
+            # (the listed finding is about a request that has run out of known brokers; one that has not is stopped by
+            # the closing flag when it asks for the next broker client)
+            res.violate("pending-not-failed-at-close/broker-agnostic-request-with-untried-brokers-carried-on",
+                        "a broker-agnostic request in progress at close() had tried %d of the %d brokers known when "
+                        "it started and was not failed by the end of that reactor event" % (n_tried, n_known),
+                        request=rid)
+        res.ob("unaware_with_untried_brokers_failed_at_once")
     for o in rec["ops"]:
         if len(o["fires"]) > 1:
             res.violate("operation-fired-twice/%s" % o["kind"], "operation Deferred fired twice", fires=o["fires"])
